@@ -162,9 +162,16 @@ def cli_part(check, cases):
         with Scratch() as sc:
             # how the file gets into the scanned tree: written there; a symbolic link to a file kept elsewhere (shared sources);
             # a file in a nested directory next to an empty sibling directory
-            layout = ["plain", "symlink", "nested"][idx % 3]
+            layout = ["plain", "symlink", "nested", "two-roots"][idx % 4]
             check.count("cli-layout-" + layout)
-            if layout == "symlink":
+            roots = [sc.path("proj")]
+            if layout == "two-roots":
+                # several input roots whose names are related as texts only (`api` / `api-types`, `v1` / `v10`), the shorter one first
+                a, b = [("api", "api-types"), ("core", "core_ext"), ("v1", "v10")][(idx // 4) % 3]
+                sc.write("proj/%s/src/neighbour.rs" % a, "#[typeshare]\npub struct PlainNeighbourFile { pub n: u8 }\n")
+                sc.write("proj/%s/src/lib.rs" % b, c["text"])
+                roots = [sc.path("proj/" + a), sc.path("proj/" + b)]
+            elif layout == "symlink":
                 sc.write("elsewhere/shared_models.rs", c["text"])
                 os.makedirs(sc.path("proj/src"), exist_ok=True)
                 os.symlink(sc.path("elsewhere/shared_models.rs"), sc.path("proj/src/lib.rs"))
@@ -176,7 +183,7 @@ def cli_part(check, cases):
                 sc.write("proj/src/lib.rs", c["text"])
             out = sc.path("out." + EXT[lang])
             tos = (["--target-os"] + c["tos"]) if c["tos"] else []
-            r = run_cli(["--lang", lang, "-o", out] + lang_args(lang) + [sc.path("proj")] + tos, cwd=sc.dir)
+            r = run_cli(["--lang", lang, "-o", out] + lang_args(lang) + roots + tos, cwd=sc.dir)
             check.saw(("cli", lang, c["text"]), nontrivial=True)
             check.count("cli-" + lang)
             exp = expected(c["file"], c["tos"])
